@@ -1329,11 +1329,16 @@ func (seq *Sequence) Release() error {
 }
 
 func (seq *Sequence) updateLease() error {
-	return seq.db.Update(func(txn *Txn) error {
+	// Compute the new lease in locals and publish it to the Sequence only once the
+	// transaction has committed. If the commit fails (e.g. with ErrConflict, when
+	// another Sequence on the same key leased concurrently), the lease was never
+	// stored and must not be handed out from.
+	var next, leased uint64
+	err := seq.db.Update(func(txn *Txn) error {
 		item, err := txn.Get(seq.key)
 		switch {
 		case err == ErrKeyNotFound:
-			seq.next = 0
+			next = 0
 		case err != nil:
 			return err
 		default:
@@ -1344,18 +1349,23 @@ func (seq *Sequence) updateLease() error {
 			}); err != nil {
 				return err
 			}
-			seq.next = num
+			next = num
 		}
 
-		lease := seq.next + seq.bandwidth
+		lease := next + seq.bandwidth
 		var buf [8]byte
 		binary.BigEndian.PutUint64(buf[:], lease)
 		if err = txn.SetEntry(NewEntry(seq.key, buf[:])); err != nil {
 			return err
 		}
-		seq.leased = lease
+		leased = lease
 		return nil
 	})
+	if err != nil {
+		return err
+	}
+	seq.next, seq.leased = next, leased
+	return nil
 }
 
 // GetSequence would initiate a new sequence object, generating it from the stored lease, if
